@@ -35,6 +35,7 @@ type World struct {
 	assumedUsed         map[string]bool
 	aliases             map[string]map[string]string // package path -> import alias -> import path
 	genericIdx          map[string]*ssa.Function
+	insliceUsers        map[string]bool // packages whose contracts use the builtin inslice (append lemmas are emitted there)
 }
 
 const contractFileName = "zz_contracts_verif.go"
@@ -150,6 +151,12 @@ func loadWorld(repo, verif string) (*World, error) {
 			continue
 		}
 		w.contractFilesInRepo[p.PkgPath] = from
+		if strings.Contains(string(src), "inslice(") {
+			if w.insliceUsers == nil {
+				w.insliceUsers = map[string]bool{}
+			}
+			w.insliceUsers[p.PkgPath] = true
+		}
 		sf, err := parseSpecText(string(src), p.PkgPath, file, false)
 		if err != nil {
 			return nil, err
